@@ -8,6 +8,7 @@ mod linkh;
 mod modcmp;
 mod msgh;
 mod sockh;
+mod sockrace;
 mod tcbh;
 mod tcplh;
 mod udph;
@@ -35,6 +36,7 @@ fn main() {
         "arp-drive" => arph::drive(&args),
         "dns-drive" => dnsh::drive(&args),
         "sock-drive" => sockh::drive(&args),
+        "sockrace-drive" => sockrace::drive(&args),
         "tcpl-drive" => tcplh::drive(&args),
         "codec-drive" => codech::drive(&args),
         "decode-drive" => codech::decode_drive(&args),
